@@ -305,7 +305,8 @@ def build_payload(it, version):
             unique_identifier=uid, cryptographic_parameters=some_params(it.get("cp")) if it["params"] else None,
             data=hexb(it, "data_hex", b"\x00" * 16),
             iv_counter_nonce=None if it.get("iv_hex") == "" else hexb(it, "iv_hex", b"\x00" * 16),
-            **({"auth_tag": hexb(it, "tag_hex", None)} if op == "decrypt" and it.get("tag_hex") else {}))
+            **({"auth_tag": hexb(it, "tag_hex", None)} if op == "decrypt" and it.get("tag_hex") else {}),
+            **({"auth_additional_data": hexb(it, "aad_hex", None)} if it.get("aad_hex") else {}))
     if op == "sign":
         return enums.Operation.SIGN, payloads.SignRequestPayload(
             unique_identifier=uid, cryptographic_parameters=some_params(it.get("cp")) if it["params"] else None,
